@@ -23,10 +23,9 @@ func ZZ_C18_ni(a []int) {
 	dom := true
 	mk := func(tag string) *zzAbs {
 		x := *base
+		// credential bytes are unconstrained (a multi-byte character in one
+		// name and not in the other must not show)
 		u := zzBytes("user"+tag, a[1])
-		for i := range u {
-			dom = zzAnd(dom, zzAnd(u[i] >= 0x20, u[i] <= 0x7e))
-		}
 		x.username, x.hasUser = u, true
 		x.password, x.hasPass = zzBytes("pass"+tag, a[2]), true
 		x.connFlags |= 0xc0
@@ -49,4 +48,52 @@ func ZZ_C18_ni(a []int) {
 	zzReach("ni")
 	zzAssert(zzStrEq(rA, rB), "Dump/String output depends on the contents of user name or password")
 	zzEmitS("render", rA)
+}
+
+// ZZ_C18_window: two CONNECT frames that differ only in the credential bytes
+// (two concrete pairs of length 2) and in which the same window of a[0] bytes before the
+// credentials is unconstrained (malformed-but-accepted frames, e.g. a
+// property that claims more bytes than its section has): whenever both are
+// accepted they must render identically. a[1:] = shape (concrete template).
+func ZZ_C18_window(a []int) {
+	w := a[0]
+	sh := zzShapeOf(a[1:])
+	sh.typ, sh.cred, sh.nz = 1, 0, 3
+	base := zzGen(sh)
+	var creds [][]byte
+	mk := func(tag string) []byte {
+		x := *base
+		// concrete, different credentials: symbolic ones would be parsed as
+		// structure by the damaged frames and explode; all credential values
+		// are covered on valid frames by ZZ_C18_ni
+		x.username, x.hasUser = []byte("u"+tag), true
+		x.password, x.hasPass = []byte{'p', tag[0] + 7}, true
+		x.connFlags |= 0xc0
+		creds = append(creds, x.username, x.password)
+		return zzRefBody(&x)
+	}
+	bA, bB := mk("A"), mk("B")
+	limit := len(bA) - 8 // the window stays in front of the credentials
+	if limit < w {
+		return
+	}
+	off := int(zzConc(uint64(zzInt("off", 0, limit-w))))
+	win := zzBytes("win", w)
+	copy(bA[off:], win)
+	copy(bB[off:], win)
+	pA, pB := &Connect{}, &Connect{}
+	eA, eB := pA.UnmarshalBinary(bA), pB.UnmarshalBinary(bB)
+	if eA != nil || eB != nil {
+		return
+	}
+	// only frames in which those bytes still are the credentials (a window
+	// that, say, stretches the protocol name over them turns them into
+	// something else)
+	if len(pA.Username()) != 2 || len(pA.Password()) != 2 || len(pB.Username()) != 2 || len(pB.Password()) != 2 {
+		return
+	}
+	zzAssume(zzAnd(zzAnd(zzBytesEq([]byte(pA.Username()), creds[0]), zzBytesEq(pA.Password(), creds[1])),
+		zzAnd(zzBytesEq([]byte(pB.Username()), creds[2]), zzBytesEq(pB.Password(), creds[3]))))
+	zzReach("window")
+	zzAssert(zzStrEq(zzRender(pA), zzRender(pB)), "Dump/String output depends on the contents of user name or password")
 }
